@@ -38,9 +38,10 @@ CONSTANTS Starts,       \* set of subsets of {"a","b"}: who has put the query me
           AllowEnd,     \* may a user call End (once in total)
           MaxRequery,   \* query messages a user may send again while encrypted (re-keying), in total
           SeqSMP,       \* TRUE: a user starts an SMP run only when the network is quiet (sequential runs; crossing runs excluded)
-          FixSMPReset,  \* FALSE: the code as it is (after a FAILED run the SMP state and secret are kept: state 3 at the responder
-                        \* until the abort arrives, state 4 at the initiator for good); TRUE: the proposed repair fixes/C47-smp-reset-
-                        \* after-failure.diff (processSMP resets on smpFailureError) -- used to show the repair satisfies RunOutcome
+          FixSMPReset,  \* TRUE: the code since otr 9e113f0 (processSMP resets the SMP state on smpFailureError);
+                        \* FALSE only in OTR_DocSMPStale.cfg: the code before (after a FAILED run the SMP state and secret were kept:
+                        \* state 3 at the responder until the abort arrived, state 4 at the initiator for good), whose RunOutcome
+                        \* counterexample (finding C47-S1) TLC must still find
           FixCommitState \* TRUE: the code since otr b85d235 (AwaitingRevealSig entered only after the D-H commit parsed);
                          \* FALSE only in OTR_DocCommitState.cfg, whose counterexample (a state without a D-H key) TLC must find
 
@@ -237,14 +238,14 @@ ProcessSMP(c, m) ==
          ELSE IF m.c # c.smpG \/ m.y # c.smpB THEN SmpRes(c, NoReply, "none", TRUE)   \* ZKP failed: error, nothing sent
          ELSE IF m.sec = c.ssec
               THEN SmpRes([c EXCEPT !.smp = 1, !.ssec = ""], Tlv("smp4", c.smpG, c.smpB, "", 0), "smpcomplete", FALSE)
-              ELSE SmpRes(IF FixSMPReset THEN ResetSMP(c) ELSE c,                     \* as is: state 3 and secret kept
+              ELSE SmpRes(IF FixSMPReset THEN ResetSMP(c) ELSE c,                     \* before 9e113f0: state 3 and secret kept
                           Tlv("smp4", c.smpG, c.smpB, "", 0), "smpfailed", FALSE)
     [] m.tlv = "smp4" ->
          IF c.smp # 4 THEN SmpRes(ResetSMP(c), Abort, "none", FALSE)
          ELSE IF m.c # c.smpA \/ m.y # c.smpPB THEN SmpRes(c, Abort, "none", TRUE)    \* ZKP failed: abort sent, state 4 kept
          ELSE IF c.peerSec = c.ssec
               THEN SmpRes([c EXCEPT !.smp = 1, !.ssec = ""], NoReply, "smpcomplete", FALSE)
-              ELSE SmpRes(IF FixSMPReset THEN ResetSMP(c) ELSE c, Abort, "smpfailed", FALSE)   \* as is: state 4 and secret kept
+              ELSE SmpRes(IF FixSMPReset THEN ResetSMP(c) ELSE c, Abort, "smpfailed", FALSE)   \* before 9e113f0: state 4 and secret kept
 
 (* processData and the TLV loop of Receive.  bad: the authenticated part of the message was modified. *)
 RecvData(c, m, bad) ==
@@ -499,9 +500,9 @@ RunVerdict(k) ==
        THEN \A p \in Parties : HasEv(k, p, "smpcomplete") /\ ~HasEv(k, p, "smpfailed")
        ELSE \A p \in Parties : HasEv(k, p, "smpfailed") /\ ~HasEv(k, p, "smpcomplete")
 RunOutcome == \A k \in 1..Len(runs) : (runs[k].clean /\ RunOver(k)) => RunVerdict(k)
-(* The code as it is violates RunOutcome in one situation (finding C47-S1): after a run that FAILED, its initiator is left in SMP
-   state 4 with its secret, so the first run the OTHER side starts afterwards is aborted unseen.  RunOutcomeKnown is RunOutcome
-   without that situation; it must hold for the code as it is, RunOutcome for the repaired code (FixSMPReset). *)
+(* Before otr 9e113f0 the code violated RunOutcome in one situation (finding C47-S1, FixSMPReset = FALSE): after a run that
+   FAILED, its initiator was left in SMP state 4 with its secret, so the first run the OTHER side started afterwards was
+   aborted unseen.  RunOutcomeKnown is RunOutcome without that situation (kept for reference; the configurations check RunOutcome). *)
 StaleAfterFailure(k) == k > 1 /\ runs[k - 1].rsec # "" /\ runs[k - 1].rsec # runs[k - 1].isec /\ runs[k].ini # runs[k - 1].ini
 RunOutcomeKnown == \A k \in 1..Len(runs) : (runs[k].clean /\ RunOver(k) /\ ~StaleAfterFailure(k)) => RunVerdict(k)
 (* Complete is only ever signalled in a clean run when the two secrets of that run are equal *)
